@@ -48,6 +48,10 @@ def cmpOp (op : String) (a b : Int) : Bool :=
   if op = "<" then a < b else if op = "<=" then a ≤ b else if op = ">" then a > b
   else if op = ">=" then a ≥ b else if op = "==" then a = b else if op = "!=" then a ≠ b else false
 
+/-- a comparison whose direction `factgen` read from the source as a canonical token ("?" = the source no
+longer has one recognisable comparison there: keep the built-in reading `dflt`) -/
+def relCmp (tok dflt : String) (a b : Int) : Bool := cmpOp (if tok = "?" then dflt else tok) a b
+
 /-- the single comparison of a function, `false` when the function no longer has exactly one -/
 def soleCmp (ops : List String) (a b : Int) : Bool :=
   match ops with
@@ -57,16 +61,16 @@ def soleCmp (ops : List String) (a b : Int) : Bool :=
 /-! ### Merge (metric_map.go: MergeCounter / MergeGauge / MergeSet / MergeTimer) -/
 
 /-- `if into.Timestamp < from.Timestamp { into.Timestamp = from.Timestamp }` -/
-def bumpTs (ops : List String) (into frm : Int) : Int := if soleCmp ops into frm then frm else into
+def bumpTs (tok : String) (into frm : Int) : Int := if relCmp tok "<" into frm then frm else into
 
 def mergeCounter (into frm : Counter) : Counter :=
-  { into with ts := bumpTs Facts.ops_MergeCounter into.ts frm.ts, value := into.value + frm.value }
+  { into with ts := bumpTs Facts.rel_MergeCounter into.ts frm.ts, value := into.value + frm.value }
 
 def mergeGauge {α} (into frm : Gauge α) : Gauge α :=
-  if soleCmp Facts.ops_MergeGauge into.ts frm.ts then { into with ts := frm.ts, value := frm.value } else into
+  if relCmp Facts.rel_MergeGauge "<" into.ts frm.ts then { into with ts := frm.ts, value := frm.value } else into
 
 def mergeTimer {α} [Add α] (into frm : Timer α) : Timer α :=
-  { into with ts := bumpTs Facts.ops_MergeTimer into.ts frm.ts,
+  { into with ts := bumpTs Facts.rel_MergeTimer into.ts frm.ts,
               values := into.values ++ frm.values, sampled := into.sampled + frm.sampled }
 
 /-- `for v := range from.Values { into.Values[v] = struct{}{} }` -/
@@ -74,7 +78,7 @@ def setUnion (a b : List String) : List String :=
   b.foldl (fun acc v => if v ∈ acc then acc else acc ++ [v]) a
 
 def mergeSet (into frm : SetV) : SetV :=
-  { into with ts := bumpTs Facts.ops_MergeSet into.ts frm.ts, members := setUnion into.members frm.members }
+  { into with ts := bumpTs Facts.rel_MergeSet into.ts frm.ts, members := setUnion into.members frm.members }
 
 /-- `from.Each(into.MergeX)`: every entry of `frm` is combined into `into` (or copied when absent) -/
 def mergeWith {ν} (f : ν → ν → ν) (into frm : AList Key ν) : AList Key ν :=
@@ -120,18 +124,18 @@ structure NumOps (α : Type) where
   invRate : α → α
 
 def recvCounter (cnt : Int) (ts : Int) (c : Counter) : Counter :=
-  { c with value := c.value + cnt, ts := if soleCmp Facts.ops_receiveCounter ts c.ts then ts else c.ts }
+  { c with value := c.value + cnt, ts := if relCmp Facts.rel_receiveCounter ">" ts c.ts then ts else c.ts }
 
 def recvGauge {α} (v : α) (ts : Int) (g : Gauge α) : Gauge α :=
-  if soleCmp Facts.ops_receiveGauge ts g.ts then { g with value := v, ts := ts } else g
+  if relCmp Facts.rel_receiveGauge ">=" ts g.ts then { g with value := v, ts := ts } else g
 
 def recvTimer {α} [Add α] (v inv : α) (ts : Int) (t : Timer α) : Timer α :=
-  { t with values := t.values ++ [v], ts := if soleCmp Facts.ops_receiveTimer ts t.ts then ts else t.ts,
+  { t with values := t.values ++ [v], ts := if relCmp Facts.rel_receiveTimer ">" ts t.ts then ts else t.ts,
            sampled := t.sampled + inv }
 
 def recvSet (s : String) (ts : Int) (x : SetV) : SetV :=
   { x with members := if s ∈ x.members then x.members else x.members ++ [s],
-           ts := if soleCmp Facts.ops_receiveSet ts x.ts then ts else x.ts }
+           ts := if relCmp Facts.rel_receiveSet ">" ts x.ts then ts else x.ts }
 
 namespace MM
 variable {α : Type} [Add α]
